@@ -147,7 +147,8 @@ func init() {
 					leaf("catch-builtin", catchStr(form("nth", model.Vec(), model.Int(1)))),
 					leaf("catch-non-fn", catchStr(model.List(model.Int(1)))))
 				ps = append(ps, leaf("(throw 3)", form("throw", model.Int(3))), leaf("(t! x)", form("t!", sym("x"))),
-					leaf(`"s"`, model.Str("a b")), leaf("{:k 1}", mp(kw("k"), model.Int(1))))
+					leaf(`"s"`, model.Str("a b")), leaf("{:k 1}", mp(kw("k"), model.Int(1))),
+					leaf("string-with-tab-and-cr", model.Str("a\tb\rc")))
 				g = enum.New([][]enum.Prod{ps}, fW)
 			}
 			return g
@@ -156,13 +157,30 @@ func init() {
 		// a program is a sequence of 2 (quick) or 2..3 (thorough) top-level forms
 		// thorough adds all triples of weight-1 forms
 		nLeaf := func() int64 { return gOf().Count(0, 1) }
+		// macro programs: a template macro defined in one top-level form and called in two further ones
+		// (same macro, same shape of call, different operands)
+		var mg *enum.Grammar
+		mgOf := func() *enum.Grammar {
+			if mg == nil {
+				mg = c12CodeGrammar(3)
+			}
+			return mg
+		}
+		mW := func() int {
+			if tier == "thorough" {
+				return 3
+			}
+			return 2
+		}
+		nOps := int64(len(c12Operands))
+		nMac := func() int64 { return mgOf().Count(0, mW()) * nOps * nOps }
 		size := func() int64 {
 			n := nForms()
 			if tier == "thorough" {
 				m := nLeaf()
-				return n*n + m*m*m
+				return n*n + nMac() + m*m*m
 			}
-			return n * n
+			return n*n + nMac()
 		}
 		progOf := func(i int64) []V {
 			n := nForms()
@@ -170,12 +188,20 @@ func init() {
 				return []V{gOf().Unrank(0, i/n), gOf().Unrank(0, i%n)}
 			}
 			i -= n * n
+			if i < nMac() {
+				body := form("quasiquote", mgOf().Unrank(0, i/(nOps*nOps)))
+				a, b := c12Operands[(i/nOps)%nOps], c12Operands[i%nOps]
+				return []V{
+					form("defmacro", sym("mac"), form("fn", model.Vec(sym("p"), sym("&"), sym("r")), form("t!", model.Int(7)), body)),
+					model.List(sym("mac"), a), model.List(sym("mac"), b)}
+			}
+			i -= nMac()
 			m := nLeaf()
 			return []V{gOf().Unrank(0, i/(m*m)), gOf().Unrank(0, (i/m)%m), gOf().Unrank(0, i%m)}
 		}
 		fam := &vf.Family{
 			Name:   "programs-x-layouts-x-routes",
-			Bounds: fmt.Sprintf("programs: every sequence of 2 top-level forms, each a core-form program of weight <=2 (thorough: also every sequence of 3 weight-1 forms) (C01 grammar + throw, (t! x), a string, a map literal); %d layouts (single line, form per line, comments between all tokens, blank lines, CRLF, no final newline, trailing comment without newline, tabs + leading comment); routes: READ with module, READ with nil cursor, cursor-free AST built from Go, READ(PRINT(ast)), forms one by one through REPL, one wrapping do, load-file from a file", len(c19Layouts)),
+			Bounds: fmt.Sprintf("programs: every sequence of 2 top-level forms, each a core-form program of weight <=2 (thorough: also every sequence of 3 weight-1 forms) (C01 grammar + throw, (t! x), a string, a string containing TAB and CR, a map literal), and every template macro (C12 code grammar, weight <=2, thorough <=3; the expander logs an effect) defined in one top-level form and called in two further ones over every pair of 7 operands; %d layouts (single line, form per line, comments between all tokens, blank lines, CRLF, no final newline, trailing comment without newline, tabs + leading comment); routes: READ with module, READ with nil cursor, cursor-free AST built from Go, READ(PRINT(ast)), forms one by one through REPL (named cursor / nil cursor), one wrapping do, load-file from a file", len(c19Layouts)),
 			Setup:  setup,
 			N:      func(t string) int64 { tier = t; return size() },
 			Describe: func(i int64) string {
@@ -247,8 +273,13 @@ func init() {
 							}
 						}
 					}
-					// forms one by one through REPL (each form rendered in this layout's token style)
-					{
+					// forms one by one through REPL (each form rendered in this layout's token style), with a
+					// named cursor and with no cursor at all (every form then starts at the same coordinates)
+					for _, named := range []bool{true, false} {
+						routeName := "forms one by one through REPL"
+						if !named {
+							routeName = "forms one by one through REPL (nil cursor)"
+						}
 						rg.tracer.Reset()
 						scope := env.NewSubordinateEnv(rg.base)
 						var last types.MalType
@@ -256,7 +287,11 @@ func init() {
 						var lp *lx.Panic
 						for _, ft := range toks {
 							one := lay.render([][]string{ft})
-							lp = lx.Guard(func() { last, lerr = lisp.REPL(context.Background(), scope, one, types.NewCursorFile("REPL")) })
+							var cur *types.Position
+							if named {
+								cur = types.NewCursorFile("REPL")
+							}
+							lp = lx.Guard(func() { last, lerr = lisp.REPL(context.Background(), scope, one, cur) })
 							if lp != nil || lerr != nil {
 								break
 							}
@@ -273,7 +308,7 @@ func init() {
 								}
 							}
 						}
-						if !cmp("forms one by one through REPL", lay.name, text, got, true) {
+						if !cmp(routeName, lay.name, text, got, true) {
 							return
 						}
 					}
